@@ -1223,8 +1223,10 @@ class CSemantics:
             do_cast = True
         elif from_type.is_pointer and to_type.is_pointer:
             do_cast = True
-        elif isinstance(from_type, types.BasicType) and isinstance(
-            to_type, types.IndexableType
+        elif (
+            isinstance(from_type, types.BasicType)
+            and from_type.is_integer
+            and isinstance(to_type, types.PointerType)
         ):
             do_cast = True
         elif isinstance(
